@@ -13,7 +13,7 @@ def run(ctx) -> Report:
     if not ctx.replay:
         G.run_mc(rep, ctx, "C04")
     n = 1 if ctx.quick else 10
-    G.conformance(rep, ctx, "C04", {"basic": 120 * n, "churn": 220 * n, "faults": 180 * n, "subs": 60 * n, "live": 80 * n, "latelookup": 60 * n})
+    G.conformance(rep, ctx, "C04", {"basic": 120 * n, "churn": 220 * n, "faults": 180 * n, "subs": 60 * n, "live": 80 * n, "latelookup": 60 * n, "txnlog": 80 * n})
     rep.extra.update(
         bounds="MC: 2-3 members x 2 partitions x logs of 1-2 records, <=2-3 generations, 1-2 crashes placed at ANY state, restarts, "
                "commits at any point (auto-commit tick, commit(), last commit before rejoin/close are all instances of Commit); "
@@ -23,6 +23,6 @@ def run(ctx) -> Report:
                "coordinator fail-over with and without group state",
         rule="one trace per generated scenario; non-trivial = the group went through >= 3 generations")
     rep.assumptions = ["simulated group coordinator follows Kafka's GroupCoordinator state machine (harness/simgroup.py)",
-                       "plain logs: every offset visible (isolation filtering is C08's subject)",
+                       "classes other than txnlog use plain logs (every offset visible); txnlog: logs of two transactional producers + a plain one, every transaction decided, read_committed members -- the offsets that may be stepped over (markers, aborted records) are computed by the driver from the log shape it wrote",
                        "kill = all tasks/timers of the member cancelled after its connections went dead (nothing reaches the cluster)"]
     return rep
